@@ -154,6 +154,10 @@ VARIANTS = [
       '        if nax != by.ndim:\n            logger.debug("_choose_method: choosing \'map-reduce\'")\n            return "map-reduce"\n\n        if _is_arg_reduction(agg) and preferred_method == "blockwise":\n            return "cohorts"\n',
       '        if _is_arg_reduction(agg) and preferred_method == "blockwise":\n            return "cohorts"\n\n        if nax != by.ndim:\n            logger.debug("_choose_method: choosing \'map-reduce\'")\n            return "map-reduce"\n', must_mention="cohorts"),
     V("auto plan: partial-axis check dropped", ("C19",), "R-AUTOREFUSE", "core.py", '        if nax != by.ndim:\n            logger.debug("_choose_method: choosing \'map-reduce\'")\n            return "map-reduce"\n\n', '', expect="silent"),
+    V("auto plan: proposal guard no longer consults an explicit reindex", ("C19",), "R-AUTOPARAM", "core.py", '        if (not any_by_dask and method is None and not reindex.blockwise) or method == "cohorts":', '        if (not any_by_dask and method is None) or method == "cohorts":', must_mention="reindex"),
+    V("auto plan: proposal guard consults reindex with the wrong polarity", ("C19",), "R-AUTOPARAM", "core.py", '        if (not any_by_dask and method is None and not reindex.blockwise) or method == "cohorts":', '        if (not any_by_dask and method is None and reindex.blockwise) or method == "cohorts":', must_mention="reindex"),
+    V("twin: proposal guard leaves reordered", ("C19",), "", "core.py", '        if (not any_by_dask and method is None and not reindex.blockwise) or method == "cohorts":', '        if (method is None and not reindex.blockwise and not any_by_dask) or method == "cohorts":', expect="silent"),
+    V("auto plan: arg reductions always sent to cohorts, even with the proposal pinned", ("C19",), "R-AUTOPARAM", "core.py", '        if _is_arg_reduction(agg) and preferred_method == "blockwise":\n            return "cohorts"\n', '        if _is_arg_reduction(agg):\n            return "cohorts"\n', must_mention="pinned"),
     V("dtype promotion memoised with an untyped key", ("C14",), "R-MEMO", "xrdtypes.py", '        dtype = np.result_type(dtype, fill_value)\n    return dtype\n',
       '        dtype = _promote_for_fill_value(dtype, fill_value)\n    return dtype\n\n\n@functools.lru_cache\ndef _promote_for_fill_value(dtype: np.dtype, fill_value) -> np.dtype:\n    return np.result_type(dtype, fill_value)\n', must_mention="typed"),
     V("twin: dtype promotion memoised with typed=True", ("C14",), "", "xrdtypes.py", '        dtype = np.result_type(dtype, fill_value)\n    return dtype\n',
